@@ -36,4 +36,6 @@ def jobs(tier, ws):
                   bound='attribute tables of 2 entries (global and one variable), normalised names of <= 3 characters; lookup results, mode flags symbolic; safe mode off',
                   assumptions=['ncmpio_rename_att: ncmpii_utf8_normalize (utf8proc), ncmpio_hash_replace and ncmpio_write_header are harness stubs that record their arguments; ncmpio_NC_findattr by (assumed) contract']))
     js.append(copy_att_job('C07'))
+    import C04
+    js += [j for j in C04.jobs(tier, ws, prop='C07') if 'longest_legal_name' in j.name]   # a name of exactly NC_MAX_NAME bytes is found again after close and reopen (seed C07_m4)
     return js
